@@ -69,6 +69,68 @@ type Chan struct {
 	sendq  []offer
 }
 
+// String makes channel variables printable in thread-local snapshots.
+func (c *Chan) String() string {
+	if c == nil {
+		return "nilchan"
+	}
+	return fmt.Sprintf("c%d", c.id)
+}
+
+// IsClosed reports whether close(c) has been executed.
+func IsClosed(c *Chan) bool { return c != nil && c.closed }
+
+// Mutex models sync.Mutex (and, conservatively, sync.RWMutex): Lock is a
+// scheduling point that parks while the mutex is held.
+type Mutex struct{ c *Chan }
+
+func (m *Mutex) ch() *Chan {
+	if m.c == nil {
+		m.c = Make(1)
+	}
+	return m.c
+}
+func (m *Mutex) Lock()    { SendAt("mutex.Lock", m.ch(), "L") }
+func (m *Mutex) RLock()   { m.Lock() }
+func (m *Mutex) RUnlock() { m.Unlock() }
+func (m *Mutex) Unlock() {
+	c := m.ch()
+	if len(c.buf) == 0 && cur != nil && !cur.dying {
+		panic("sync: unlock of unlocked mutex")
+	}
+	RecvAt("mutex.Unlock", c)
+}
+
+// WaitGroup models the Add/Done half of sync.WaitGroup (nobody waits in the
+// explored programs; Wait is not modelled).
+type WaitGroup struct{ n, done int }
+
+func (w *WaitGroup) Add(d int) { w.n += d }
+func (w *WaitGroup) Done() {
+	if cur != nil && cur.dying {
+		return
+	}
+	w.n--
+	w.done++
+	if w.n < 0 {
+		panic("sync: negative WaitGroup counter")
+	}
+}
+func (w *WaitGroup) Wait()          { HarnessError("WaitGroup.Wait is not modelled") }
+func (w *WaitGroup) DoneCount() int { return w.done }
+func (w *WaitGroup) Counter() int   { return w.n }
+
+// SetLocals registers a snapshot function for the locals of the running
+// thread that live across scheduling points; it becomes part of the canonical
+// state. The function is only called while the thread is not running.
+func SetLocals(f func() string) {
+	s := current()
+	if s.running == nil {
+		HarnessError("SetLocals outside a controlled thread")
+	}
+	s.running.locals = f
+}
+
 // Thread states.
 const (
 	stNew = iota
@@ -100,6 +162,7 @@ type Thread struct {
 	PanicVal  string
 	PanicSite string
 	woke      resumeMsg
+	locals    func() string
 }
 
 func (t *Thread) Done() bool     { return t.status == stDone }
@@ -119,6 +182,7 @@ type Sched struct {
 	wg       sync.WaitGroup
 	nextName string
 	panicked *Thread
+	dying    bool // the execution is being torn down
 }
 
 // cur is the scheduler of the execution in progress (one per process).
@@ -216,6 +280,10 @@ func (s *Sched) spawn(name string, f func()) *Thread {
 // completion.
 func op(site string, cases []Case) resumeMsg {
 	s := current()
+	if s.dying {
+		// deferred calls of a thread being torn down: nothing is modelled
+		return resumeMsg{}
+	}
 	t := s.running
 	if t == nil {
 		HarnessError("channel operation at " + site + " outside a controlled thread")
@@ -475,6 +543,7 @@ func (s *Sched) apply(ch Choice) {
 
 // killAll terminates every goroutine of the execution.
 func (s *Sched) killAll() {
+	s.dying = true
 	for _, t := range s.threads {
 		if t.status != stDone {
 			t.resume <- resumeMsg{kill: true}
@@ -508,6 +577,11 @@ func (s *Sched) stateKey(h string) string {
 			b.WriteString("panic:")
 		}
 		fmtCases(&b, t.cases)
+		if t.locals != nil && t.status != stDone {
+			b.WriteString("L{")
+			b.WriteString(t.locals())
+			b.WriteString("}")
+		}
 	}
 	for _, c := range s.chans {
 		fmt.Fprintf(&b, "|C%d:%d:%v:%v:r", c.id, c.cap, c.closed, c.buf)
